@@ -55,6 +55,11 @@ CHECKS = {
     note=BASE + "wall-clock behaviour is not claimed: the real engine runs under the TEXEL_VERIF virtual clock driven by searched nodes; IEEE-double steps abstracted by two hypotheses (scale m >= m, cast >= 0) checked on every run; known finding C06-maxnps-sleep (MaxNPS throttle sleeps make the polling interval unbounded).",
     technique="Lean 4 proof (allocation arithmetic by omega, stop-rule state machine) + translator-regenerated integer slices + differential of the real computeTimeLimit/shouldStop + real engine under a deterministic virtual clock checked against the proved deadlines",
     design="6/C06, notes/C06.md"),
+ "C15": dict(
+    text="Lean theorems (Props/C15.lean, 14): unMoves_iff — the executable un-move oracle lists exactly the (move, undo information) pairs for which a reader-accepted predecessor exists in which the move is legal and leads back to the position (both modes of includeAllEpSquares); corollaries complete, complete_noEp, consistent, no_unmoves_no_predecessor, unmake_restores (un-making any pseudo-legal move restores the board: plain, O-O, O-O-O, e.p.); the repaired origin-square condition never drops a predecessor (witness for the pinned code).",
+    note=BASE + "half-move clock of an UnMove is always 0 by the header's contract and not modelled; the algorithm of Texel's generator itself is not modelled (its output is compared as a set with the proven oracle).",
+    technique="Lean 4 proof (un-move oracle = relational predecessor specification) + set equality of RevMoveGen::genMoves with the compiled oracle in both modes + forward/backward predicates on the implementation (played move present; every listed un-move legal and leading back)",
+    design="notes/C15.md"),
  "C18": dict(
     text="Lean theorems (Props/C18.lean, 16) on a byte-level model (book = List UInt8): probe_safe for arbitrary bytes and any random draw (result is none or a legal move), only_own_key for any file, bsearch_complete and positive_weight_reachable for sorted books, polyglot move codec round trip incl. castling, termination of the binary search, weight-sum bound for the repaired 64-bit arithmetic, witnesses for the three pre-fix defects. The polyglot hash key is tied by differential and an independent Python oracle only.",
     note=BASE + "the 781 polyglot random constants are regenerated from polyglot.cpp and compared on every run; the built-in book's table lookup is checked on the implementation only; quick tier needs the asan variant and sparse files up to 4 GiB.",
